@@ -333,7 +333,9 @@ func c16Run(c c16Case, afterOps func(model string)) (string, []Violation, int) {
 		case opRegisterTag:
 			var t *log.Tag
 			pn := safeCall(func() { t = log.RegisterTag("_vfz_new") })
-			if m.guard != (pn != nil) {
+			// refused while a configuration is live, possible when none has been loaded or after Destroy; between a
+			// FAILED Refresh and the next Destroy no configuration is live and the statement does not say: either
+			if m.guard != (pn != nil) && !strings.HasPrefix(m.mode, "failed") {
 				fail("registration-guard", fmt.Sprintf("%s: panic=%v but a configuration live/guarded=%v", step, pn, m.guard))
 			}
 			if pn == nil {
@@ -346,7 +348,7 @@ func c16Run(c c16Case, afterOps func(model string)) (string, []Violation, int) {
 			name := map[int]string{opGetAux: "aux", opGetGhost: "ghost"}[o]
 			var h *log.LoggerWrapper
 			pn := safeCall(func() { h = log.GetLogger(name) })
-			if m.guard != (pn != nil) {
+			if m.guard != (pn != nil) && !strings.HasPrefix(m.mode, "failed") {
 				fail("registration-guard", fmt.Sprintf("%s: panic=%v but guarded=%v", step, pn, m.guard))
 			}
 			if pn == nil {
